@@ -110,7 +110,7 @@ var c14Kind = registerKind("c14", func(in c14In) string {
 		}
 		// the setter on a claims-set that ALREADY holds a value (the same one,
 		// a valid one, an invalid one: stored by a non-validating route)
-		for _, prev := range []uint16{v, 0x3000, 0xffff, v ^ 0x0100} {
+		for _, prev := range []uint16{v, 0x3000, 0xffff, v ^ 0x0100, 0x0000, 0x1000, 0x20ff, 0x4000, 0x5000, 0x6000, 0x60ff} {
 			pm := baseValid(p, 0)
 			pm.Lifecycle = u16p(prev)
 			pc, _ := pm.BuildLiteral()
